@@ -337,6 +337,10 @@ def c20(ck):
                    tlc_workers=8, timeout=3000)
     runs = "150" if ck.tier == "quick" else "1500"
     ck.trace_stage("realthreads", ["threads", "--runs", runs], "Trace_Threads", "Trace_Threads.cfg", heap="8g", timeout=3000)
+    if ck.tier == "thorough":
+        # TLAPS: mutual exclusion, at most one compile per name, no poisoned lock, cache = declarative meaning and
+        # schedule-independent results for ANY number of threads, names and calls (inductive invariant)
+        ck.proof_stage("unbounded-proof", "LiquidPartials_proofs", ["LiquidPartials", "LiquidPartialsBase"])
 
 
 PROPS = {"C01": c01, "C02": c02, "C03": c03, "C04": c04, "C06": c06, "C07": c07, "C08": c08, "C09": c09, "C10": c10, "C11": c11, "C12": c12, "C13": c13, "C14": c14, "C15": c15, "C16": c16, "C17": c17, "C19": c19, "C20": c20, "C05": c05, "C18": c18}
